@@ -50,7 +50,8 @@ def gen_ext_history(rng, length):
                 d = new("data")
                 share = pick(["data"]) if rng.chance(25) else None
                 ops.append({"op": "add_data", "id": d, "obj": o, "dtype": rng.choice(["float", "int", "text", "ref"]),
-                            "assoc": rng.choice(["VERTEX", "VERTEX", "CELL", "OBJECT"]), "seed": rng.below(1000), "share_type": share})
+                            "assoc": rng.choice(["VERTEX", "VERTEX", "CELL", "OBJECT"]), "seed": rng.below(1000), "share_type": share,
+                            "type_uid": rng.range(1, 2) if rng.chance(30) else None})
         elif w in ("pg", "pg_unnamed"):
             o = pick(["points", "curve", "surface"])
             if o is not None:
@@ -59,7 +60,7 @@ def gen_ext_history(rng, length):
         elif w == "rm_children":
             o = pick(["points", "curve", "surface", "grid2d", "group"])
             if o is not None:
-                ops.append({"op": "rm_children", "obj": o, "seed": rng.below(1000), "k": rng.range(1, 3)})
+                ops.append({"op": "rm_children", "obj": o, "seed": rng.below(1000), "k": rng.range(1, 5), "pg_first": rng.chance(40)})
         elif w == "rm_ws":
             e = pick(["data", "pg", "points", "curve", "surface", "grid2d", "group", "hole"])
             if e is not None and e != g0:
@@ -318,6 +319,15 @@ class ExtImpl:
                 sh = self.ent(op["share_type"]) if op.get("share_type") is not None else None
                 if sh is not None and dt == "float" and getattr(sh.entity_type, "primitive_type", None) is not None and sh.entity_type.primitive_type.name == "FLOAT":
                     spec["entity_type"] = sh.entity_type
+                if op.get("type_uid") and dt in ("float", "int") and "entity_type" not in spec:
+                    import uuid
+
+                    tu = uuid.UUID(int=0xABC000 + op["type_uid"])
+                    prim = {"float": "FLOAT", "int": "INTEGER"}[dt]
+                    live = ob.workspace.find_type(tu, __import__("geoh5py").data.DataType)
+                    if live is not None and live.primitive_type.name != prim:
+                        return "skipped", info  # the identifier is in use by a live type of another kind
+                    spec["entity_type"] = {"uid": tu, "primitive_type": prim, "name": f"t{op['type_uid']}{prim}"}
                 d = ob.add_data({f"d{op['id']}": spec})
                 self.uid[op["id"]] = (self.uid[op["obj"]][0], d.uid)
                 info.update(target=d.uid, parents=[ob.uid])
@@ -339,6 +349,11 @@ class ExtImpl:
                     return "skipped", info
                 ch = list(ob.children)
                 sel = [ch[i] for i in sorted(set(R.randint(0, len(ch), op["k"]).tolist()))]
+                if op.get("pg_first"):  # a property group listed before the data sets it does not contain
+                    pgs = [c for c in ch if isinstance(c, PropertyGroup)]
+                    if pgs:
+                        members = set(pgs[0].properties or [])
+                        sel = [pgs[0]] + [c for c in sel if c is not pgs[0] and getattr(c, "uid", None) not in members]
                 if any(c is ws.root for c in sel):
                     return "skipped", info
                 def sub(e):
